@@ -68,7 +68,7 @@ KNOWN = [
  ("C10","canon-rejected:host-word","a condition whose VALUE is a resolvable host name spelled like an operator word (e.g. 'sip = eq and dport = 80' with a host named 'eq') is accepted, but its canonical string 'sip = eq & dport = 80' is rejected when prepared again, because the sanitiser rewrites ' eq ' in free text. Needs a token-aware sanitiser; not repaired."),
  ("C04","inconsistent:rename:daydir->daydir:listing-disagrees","a kill between the two commit steps of a write-out (rename of .blockmeta, then rename of the day directory to its new metadata suffix) leaves the directory suffix with the totals of the previous state: queries show the new block, the interface listing (which trusts the suffix) does not count it, until the next write-out to that day. The two renames cannot be made atomic without changing the on-disk layout; not repaired."),
  ("C29","live-query-error:memory-only","a live query for an interface that is being captured but has no directory in the database yet (until its first write-out) fails with 'no interfaces provided' instead of returning the in-memory flows: the interface argument is resolved against the database only. Needs the lister to be unioned with the capture manager's interfaces and the work manager to tolerate a missing directory; not repaired."),
- ("C05","error-but-damaged:rename:daydir->daydir:*:query-rows","if the final rename of the day directory (metadata suffix update) fails, DBWriter.Write returns the error although the block was already committed by the preceding .blockmeta rename: the database then holds one block more than 'the previously committed data'. Same two-step commit as the C04 finding; not repaired."),
+ ("C05","error-but-damaged:rename:daydir->daydir:*","if the final rename of the day directory (metadata suffix update) fails, DBWriter.Write returns the error although the block was already committed by the preceding .blockmeta rename: the database then holds one block more than 'the previously committed data' (seen in the query rows, or for a write-out without flows only in the listing's drop counter). Same two-step commit as the C04 finding; not repaired."),
 ]
 
 out = {"_comment": "Genuine defects of els0r/goProbe found by the checks. status=known: listed finding, reported as KNOWN-FINDING (exit 0) — matched by signature (fnmatch), so a different violation of the same property is still reported; status=fixed: repaired by the named 'fix:' commit in /repo, suppresses nothing (the check passes on the repaired tree and reports the violation again if it returns). Generated by driver/mkfindings.py, never written at run time.", "findings": []}
